@@ -43,14 +43,15 @@ const (
 
 // G is the simulator's record of one goroutine.
 type G struct {
-	Name   string
-	Client bool // started by the harness (sim.Go), not by kit code
-	goid   uint64
-	wake   chan struct{}
-	state  gstate
-	site   string // where it is parked, or the last site it passed
-	inOp   string // site of the blocking operation it entered last (Pre), cleared by Post
-	nchild int
+	Name    string
+	Client  bool // started by the harness (sim.Go), not by kit code
+	goid    uint64
+	wake    chan struct{}
+	state   gstate
+	site    string // where it is parked, or the last site it passed
+	opStamp uint64 // stamp taken when it entered its last blocking operation
+	inOp    string // site of the blocking operation it entered last (Pre), cleared by Post
+	nchild  int
 
 	// lock waiting
 	waitLock *lockModel
@@ -71,6 +72,7 @@ type lockModel struct {
 	writer    bool
 	readers   int
 	announced int // writers waiting (block new readers, like sync.RWMutex)
+	admitted  int // readers admitted at a writer's unlock that have not run yet
 	holder    string
 }
 
@@ -92,6 +94,7 @@ type Config struct {
 	MaxIdle              time.Duration   // simulated idle time after which S declares the run stuck
 	MaxSteps             uint64          // hard cap on scheduler steps per run
 	Record               bool            // keep the human-readable trace
+	Debug                bool            // print trace lines to stderr as they happen
 }
 
 // Sim is one simulated run.
@@ -111,22 +114,22 @@ type Sim struct {
 	free    atomic.Bool
 	arrival uint64
 
-	viol      *Violation
-	trace     []string
-	thash     uint64
-	probes    map[string]int
-	faults    map[string]int
-	switches  uint64
-	injected  time.Duration
-	start     time.Time
-	mainDone  bool
-	stuck     bool
-	adopted   int
-	starve    string
-	nprio     int
-	lastRun   *G
-	simEnd    time.Time
-	unlockCh  chan struct{} // free-run mode: closed and replaced at every unlock
+	viol     *Violation
+	trace    []string
+	thash    uint64
+	probes   map[string]int
+	faults   map[string]int
+	switches uint64
+	injected time.Duration
+	start    time.Time
+	mainDone bool
+	stuck    bool
+	adopted  int
+	starve   string
+	nprio    int
+	lastRun  *G
+	simEnd   time.Time
+	unlockCh chan struct{} // free-run mode: closed and replaced at every unlock
 }
 
 var cur atomic.Pointer[Sim]
@@ -224,6 +227,7 @@ func Pre(site string) {
 	g := s.me(site)
 	s.yield(g, site)
 	g.inOp = site
+	g.opStamp = s.stamp.Add(1)
 }
 
 // Post is called right after such an operation: if the operation really blocked, S has
@@ -310,7 +314,7 @@ func (s *Sim) lockFor(p any) *lockModel {
 
 func (lm *lockModel) can(mode int) bool {
 	if mode == W {
-		return !lm.writer && lm.readers == 0
+		return !lm.writer && lm.readers == 0 && lm.admitted == 0
 	}
 	return !lm.writer && lm.announced == 0
 }
@@ -339,6 +343,9 @@ func BeforeLock(p any, mode int, site string) {
 	s.yield(g, site)
 	s.mu.Lock()
 	lm := s.lockFor(p)
+	if s.cfg.Debug {
+		println("  lock", g.Name, "L", lm.ord, "mode", mode, "can", lm.can(mode), "w", lm.writer, "r", lm.readers, "ann", lm.announced, site)
+	}
 	if lm.can(mode) {
 		lm.take(mode, g)
 		s.mu.Unlock()
@@ -364,13 +371,13 @@ func BeforeLock(p any, mode int, site string) {
 		if mode == W {
 			lm.announced--
 		}
-		adm := g.admitted
+		if g.admitted {
+			lm.admitted--
+		}
 		g.waitLock = nil
 		g.admitted = false
 		s.mu.Unlock()
-		if !adm {
-			s.freeLock(p, mode)
-		}
+		s.freeLock(p, mode)
 	}
 }
 
@@ -390,6 +397,9 @@ func BeforeUnlock(p any, mode int, site string) {
 	s.control(g, site)
 	s.mu.Lock()
 	lm := s.lockFor(p)
+	if s.cfg.Debug {
+		println("  unlock", g.Name, "L", lm.ord, "mode", mode, "w", lm.writer, "r", lm.readers, site)
+	}
 	bad := false
 	if mode == W {
 		if !lm.writer {
@@ -402,7 +412,7 @@ func BeforeUnlock(p any, mode int, site string) {
 			for _, w := range s.parked {
 				if w.waitLock == lm && w.waitMode == R && !w.admitted {
 					w.admitted = true
-					lm.readers++
+					lm.admitted++
 				}
 			}
 		}
@@ -451,20 +461,30 @@ func (s *Sim) freeLock(p any, mode int) {
 	}
 }
 
-func (lm *lockModel) can2free(mode int) bool { return !lm.writer && lm.readers == 0 }
+func (lm *lockModel) can2free(mode int) bool {
+	return !lm.writer && lm.readers == 0 && lm.admitted == 0
+}
 
 func (s *Sim) freeUnlock(p any, mode int) {
 	s.mu.Lock()
 	lm := s.lockFor(p)
+	bad := false
 	if mode == W {
+		bad = !lm.writer
 		lm.writer = false
 		lm.holder = ""
 	} else if lm.readers > 0 {
 		lm.readers--
+	} else {
+		bad = true
 	}
 	close(s.unlockCh)
 	s.unlockCh = make(chan struct{})
 	s.mu.Unlock()
+	if bad {
+		// the real unlock would be an unrecoverable runtime fatal error: unwind this goroutine instead
+		panic(abortRun{})
+	}
 }
 
 // AfterUnlock is woven after the real unlock: a natural preemption point.
@@ -499,7 +519,7 @@ func (s *Sim) eligibleLocked(now time.Time) []*G {
 // not block it).
 func (lm *lockModel) can2(mode int) bool {
 	if mode == W {
-		return !lm.writer && lm.readers == 0
+		return !lm.writer && lm.readers == 0 && lm.admitted == 0
 	}
 	return !lm.writer && lm.announced == 0
 }
@@ -627,7 +647,10 @@ func (s *Sim) loop() {
 			if g.waitMode == W {
 				lm.announced--
 				lm.take(W, g)
-			} else if !g.admitted {
+			} else {
+				if g.admitted {
+					lm.admitted--
+				}
 				lm.take(R, g)
 			}
 			g.waitLock = nil
@@ -836,6 +859,9 @@ func (s *Sim) tracef(format string, a ...any) {
 	h ^= '\n'
 	h *= 1099511628211
 	s.thash = h
+	if s.cfg.Debug {
+		println(s.epoch.Load(), line)
+	}
 	if s.cfg.Record {
 		s.trace = append(s.trace, fmt.Sprintf("%d %s", s.epoch.Load(), line))
 	}
@@ -1010,6 +1036,21 @@ func (s *Sim) DisableDelays() {
 	s.mu.Lock()
 	s.cfg.TimeDen = 0
 	s.mu.Unlock()
+}
+
+// LastOpStamp returns the stamp taken when the calling goroutine entered its most recent
+// woven blocking operation — for a channel-based mutex, its arrival in the wait queue.
+func (s *Sim) LastOpStamp() uint64 { return s.me("opstamp").opStamp }
+
+// MapKeys returns the keys of m in a canonical order (woven in place of `range m`, whose
+// order the runtime randomises).
+func MapKeys[M ~map[K]V, K comparable, V any](m M) []K {
+	keys := make([]K, 0, len(m))
+	for k := range m {
+		keys = append(keys, k)
+	}
+	sort.Slice(keys, func(i, j int) bool { return fmt.Sprint(keys[i]) < fmt.Sprint(keys[j]) })
+	return keys
 }
 
 // StarveOne names the goroutine that strategy 2 only runs when nothing else can.
